@@ -37,7 +37,7 @@ def run(chk, R, tier, seed):
     for m in (0, 2, 3, 4):
         chk.require("minor units %d" % m)
     for op in MIX_ERR + ["==", "!=", "*", "convert", "parse-money",
-                         "parse-generic"]:
+                         "parse-generic", "q/u", "u/u", "u*u", "q**2"]:
         chk.require("mixed|" + op)
     chk.require("unknown codes rejected")
     chk.require("user currencies")
@@ -114,6 +114,16 @@ def run(chk, R, tier, seed):
     def mixed(a, b, op, xa, xb):
         if op == "convert":
             e = M(Q(num(xa), a), "convert", U(b))
+        elif op in ("q/u", "u/q", "u/u"):
+            # the same refusal one level down: money / currency,
+            # currency / money, currency / currency
+            e = OP("/", Q(num(xa), a) if op[0] == "q" else U(a),
+                   Q(num(xb if xb else F(1)), b) if op[2] == "q" else U(b))
+        elif op in ("u*u", "q*u", "q**2", "u**2"):
+            e = {"u*u": OP("*", U(a), U(b)),
+                 "q*u": OP("*", Q(num(xa), a), U(b)),
+                 "q**2": OP("**", Q(num(xa), a), ["i", 2]),
+                 "u**2": OP("**", U(a), ["i", 2])}[op]
         elif op in ("parse-money", "parse-generic"):
             # a string naming one currency with another one given as unit is
             # a conversion, too
@@ -131,7 +141,8 @@ def run(chk, R, tier, seed):
                 return
             chk.case(("mixed", a, b, op, str(xa), str(xb)))
             chk.count("mixed|" + op)
-            if op in MIX_ERR or op == "convert" or op.startswith("parse-"):
+            if op in MIX_ERR or op == "convert" or op.startswith("parse-") \
+                    or op in ("q/u", "u/q", "u/u"):
                 ok = is_exc(r, "UnitConversionError")
                 want = "UnitConversionError"
             elif op == "==":
@@ -158,14 +169,17 @@ def run(chk, R, tier, seed):
             ops = ["+", "convert"]
             if tier == "thorough":
                 ops = MIX_ERR + ["convert", "==", "!=", "*", "parse-money",
-                                 "parse-generic"]
+                                 "parse-generic", "q/u", "u/q", "u/u", "u*u",
+                                 "q*u", "q**2", "u**2"]
             for op in ops:
                 cases.append(mixed(a, b, op, xa, xb))
     chk.exhaustive["ordered pairs of distinct currencies x {+, convert}"] = True
     for _ in range(2500 if tier == "quick" else 0):
         a, b = rng.sample(codes, 2)
         for op in rng.sample(MIX_ERR[1:] + ["==", "!=", "*", "parse-money",
-                                            "parse-generic"], 3):
+                                            "parse-generic", "q/u", "u/q",
+                                            "u/u", "u*u", "q*u", "q**2",
+                                            "u**2"], 4):
             cases.append(mixed(a, b, op, rng.choice(amts), rng.choice(amts)))
 
     # ---- same currency
